@@ -2153,6 +2153,10 @@ def g_c20(r, tier, env, Ls):
         cs.append(Case(line, dict(expect=expect), "errc", oracle=oracle_errc, tags=["errc", tag]))
     for nr in range(0, 5):
         E(f"errc surface {nr}", "err MICM_Process 1" if nr > 1 else f"errc ok reactants={nr}", "surface")
+        # ... whatever kind the reactants are (third bodies count), through the builder and through the constructor
+        for mask in range(1, 1 << nr):
+            for ctor in (0, 1):
+                E(f"errc surface {nr} {mask} {ctor}", "err MICM_Process 1" if nr > 1 else f"errc ok reactants={nr}", "surface_third_body")
     for k, ex in [(0, "ok"), (1, "err MICM_Species 1"), (2, "err MICM_Species 1"), (3, "err MICM_Species 1"), (4, "err MICM_Species 1"), (5, "err MICM_Species 2"),
                   (6, "err MICM_Species 1"), (7, "err MICM_Species 1"), (8, "err MICM_Species 1"), (9, "err MICM_Species 1"), (10, "err MICM_Species 1")]:
         E(f"errc property {k}", ex, "property")
